@@ -371,13 +371,15 @@ func (resp *Response) Read(b *bufio.Reader) error {
 			continue
 
 		case "END":
-		case "STORED", "NOT_STORED", "DELETED", "NOT_FOUND":
+		case "STORED", "NOT_STORED", "DELETED", "NOT_FOUND", "EXISTS":
 		case "OK":
 
+		case "VERSION":
+			resp.Msg = strings.Join(parts[1:], " ")
+
 		case "ERROR", "SERVER_ERROR", "CLIENT_ERROR":
-			if len(parts) > 1 {
-				resp.Msg = parts[1]
-			}
+			// the message is the whole rest of the line, not its first word
+			resp.Msg = strings.Join(parts[1:], " ")
 			logger.Errorf("error: %v", resp)
 
 		default:
